@@ -277,8 +277,9 @@ claim('C10', 'model_checking',
       'the start, drawn values), same bundles with |timetag - (start + NRT time) * 2^32| <= 1. Determinism: per '
       'NRT path the program is run twice from fresh state (logs, score list and raw score entry by entry equal) '
       'and once more with every other routine drawing extra values (the seeded routine\'s stream is unchanged).',
-      _TB + '; one clock per program (cross-clock order is timing dependent in RT); quick tier uses zero wake-up '
-      'latency for the discrete-feature programs, arbitrary latency for the all-symbolic ones; RT-side '
+      _TB + '; one clock per program (cross-clock order is timing dependent in RT); zero wake-up latency for the '
+      'discrete-feature programs (thorough: arbitrary latency for four of them), arbitrary latency for the '
+      'all-symbolic ones; RT-side '
       'counterexamples are replayed concretely in the co-simulation (real clock code, recorded instants) against a '
       'concrete NRT run in a child process.',
       'symbolic execution of both modes + SMT equivalence of path summaries (LRA/LIA with to_int), co-simulated RT',
